@@ -38,7 +38,9 @@ func (c03) Plan(tier string, seed int64) []mon.Workload {
 	return []mon.Workload{{Name: "programs", N: n}, {Name: "loop-scope", N: int64(len(c03Loops) * len(c03Bodies) * len(c03Vars)), Exhaustive: true},
 		{Name: "branch-table", N: 8 * 16 * 2 * 3, Exhaustive: true},
 		{Name: "map-iteration", N: n / 10},
-		{Name: "many-locals", N: manyLocalsN(), Exhaustive: true}}
+		{Name: "many-locals", N: manyLocalsN(), Exhaustive: true},
+		{Name: "deep-run", N: int64(len(c01DeepKinds) * len(c01DeepLevels)), Exhaustive: true},
+		{Name: "across-use", N: int64(len(c03UseMains) * len(c03UseLibs)), Exhaustive: true}}
 }
 
 // loop-scope: every loop form x body template x variable kind. The body
@@ -166,6 +168,68 @@ func c03BranchTable(i int64) progCase {
 	return pc
 }
 
+// across-use (exhaustive): the scoping rules of a script are about ITS OWN
+// variables: a script entered through use() starts with none, so a name it
+// has not assigned reads as the point's key or nil, and its assignments
+// create its own locals - whatever variables (top level, block, loop) are
+// alive at the call site in the calling script.
+var c03UseMains = []string{
+	"x = 1\ny = \"outer\"\nuse(\"lib.p\")\np(x, y, z)\n",
+	"if true {\n  x = 1\n  use(\"lib.p\")\n  p(x)\n}\np(x)\n",
+	"for i = 0; i < 2; i = i + 1 {\n  use(\"lib.p\")\n  p(i)\n}\np(i)\n",
+	"for e in [1, 2] {\n  x = e\n  use(\"lib.p\")\n  p(x, e)\n}\n",
+	"f1 = \"shadows the key\"\nuse(\"lib.p\")\np(f1)\n",
+	"x = [1]\nif x {\n  y = x\n  for i = 0; i < 1; i = i + 1 {\n    use(\"lib.p\")\n  }\n  p(x, y)\n}\n",
+}
+var c03UseLibs = []string{
+	"p(x, y, i, e, f1)\n",
+	"x = 100\ny = \"inner\"\ni = 50\ne = 9\nz = 3\nf1 = 0\np(x, y, i, e, z, f1)\n",
+	"if x {\n  x = \"changed\"\n}\nfor i = 5; i < 6; i = i + 1 {\n}\nx += 1\np(x, i)\n",
+	"for e in \"ab\" {\n  y = e\n}\np(e, y)\nif true {\n  x = nil\n}\np(x)\n",
+}
+
+func c03AcrossUse(c *mon.Ctx, i int64) {
+	main := c03UseMains[int(i)%len(c03UseMains)]
+	lib := c03UseLibs[int(i)/len(c03UseMains)]
+	srcs := map[string]string{"main.p": main, "lib.p": lib}
+	stmts := map[string][]*gt.T{}
+	for n, text := range srcs {
+		o := drive.Parse(n, text)
+		if o.Err != nil {
+			panic("c03: across-use script does not parse: " + text + ": " + o.Err.Error())
+		}
+		l, err := gt.FromStmts(o.Stmts)
+		if err != nil {
+			panic(err)
+		}
+		stmts[n] = gt.CloneStmts(l)
+	}
+	info := map[string]any{"scripts": srcs}
+	ok, errs := drive.LoadV1(srcs)
+	c.Eval(1)
+	for n, e := range errs {
+		c.Violate("valid-program-rejected", fmt.Sprintf("%s was rejected: %v\n%s", n, e, srcDump(srcs)), info)
+		return
+	}
+	mp := ref.NewPoint("m", map[string]string{"t1": "tag-value"}, map[string]any{"f1": "field-value"}, time.Unix(1700000000, 0))
+	prog := &ref.Program{Scripts: stmts, Funcs: ref.Merge(ref.ProbeFuncs(), ref.PointFuncs())}
+	model := mp.Clone()
+	mo := ref.Run(prog, "main.p", model, modelBudget)
+	real := drive.PointFromModel(mp)
+	ro := drive.RunV1(ok["main.p"], real, &drive.RunState{Budget: realBudget(mo.Shared.Steps)})
+	c.Eval(1)
+	c.Nontrivial(srcDump(srcs))
+	if mo.Unspecified != "" {
+		c.Count("not_compared_unspecified", 1)
+		c.Cell("unspecified_reasons", mo.Unspecified)
+	} else {
+		c.Count("compared", 1)
+	}
+	if r := compareRun(ro, mo, cmpOpts{Point: model, RealPoint: real}); r != nil {
+		c.Violate(r.Class, fmt.Sprintf("%s\n%s", r.Detail, srcDump(srcs)), info)
+	}
+}
+
 type progCase struct {
 	Stmts  []*gt.T
 	Src    string
@@ -205,6 +269,12 @@ func (k c03) Describe(c *mon.Ctx, workload string, i int64) any {
 	}
 	if workload == "many-locals" {
 		return map[string]any{"source": gt.Print(manyLocalsProgram(i), nil)}
+	}
+	if workload == "deep-run" {
+		return map[string]any{"source": gt.Print(c01DeepRun(i), nil)}
+	}
+	if workload == "across-use" {
+		return map[string]any{"main.p": c03UseMains[int(i)%len(c03UseMains)], "lib.p": c03UseLibs[int(i)/len(c03UseMains)]}
 	}
 	pc := k.build(c)
 	pts := []string{}
@@ -250,6 +320,15 @@ func (k c03) Run(c *mon.Ctx, workload string, i int64) {
 	}
 	if workload == "map-iteration" {
 		runMapIter(c, false)
+		return
+	}
+	if workload == "across-use" {
+		c03AcrossUse(c, i)
+		return
+	}
+	if workload == "deep-run" {
+		st := c01DeepRun(i)
+		runV1Compare(c, progCase{Stmts: st, Src: gt.Print(st, nil), Points: []*ref.Point{ref.NewPoint("m", nil, map[string]any{"f1": int64(1)}, time.Unix(1700000000, 0))}}, "c03.p")
 		return
 	}
 	if workload == "many-locals" {
